@@ -2,7 +2,10 @@ module verifharness
 
 go 1.25.0
 
-require go.starlark.net v0.0.0
+require (
+	go.starlark.net v0.0.0
+	google.golang.org/protobuf v1.36.11
+)
 
 require golang.org/x/sys v0.42.0 // indirect
 
